@@ -1,5 +1,5 @@
 From PL Require Import Data.Equal.
-Open Scope N_scope.
+Local Open Scope N_scope.
 
 Lemma strip_getv v : is_data v = true -> strip v = strip (getv v).
 Proof. destruct v; cbn; auto. Qed.
